@@ -95,6 +95,20 @@ PROPS = {
         'rule': 'generated programs (counted ALU loop, optional BSR/RTS leaf, final self-loop) with 1-4 handlers ending in RTE (RTE only / counter increments), vectors 1-63 installed, CCR.I clear or set at start, 20-120 instruction boundaries, schedules of 0-10 requests incl. bursts at one boundary, repeats and requests while a handler runs; every program also runs without requests. The real try_interrupt+step loop is driven through the hooks; the trace of PCs at every boundary, the pending queue and the complete final state are compared with Model and Spec. distinct non-trivial = distinct programs x schedules.',
         'assumptions': ['handlers used by the generator keep I set until RTE (the emulator implements no instruction that clears I other than RTE)'],
     },
+    'C11': {
+        'lean': ['H8.Props.C11'],
+        'gen': ['consts'],
+        'runs': [{'mode': 'elf', 'shards': 16}],
+        'rule': 'generated ELF32-BE executables: 1-4 ascending non-overlapping PT_LOAD segments with arbitrary offsets / sizes (filesz <= memsz, incl. zero-size and .bss-only), interleaved non-load program headers (also trailing), shuffled section-header order, .got of 0-64 entries anywhere inside a segment with entry values incl. ones whose sum carries into the top byte / wraps, .stack, .symtab/.strtab; loaded by the real elf::load into a fresh Cpu; all non-zero 64-byte DRAM blocks below the image end (and that no other array changed) compared with Model (exact) and Spec (expected image). distinct non-trivial = distinct files.',
+        'assumptions': ['structurally valid files only (the statement\'s domain); truncated / malformed files are out of scope of C11 and make the loader return an error or panic'],
+    },
+    'C12': {
+        'lean': ['H8.Props.C12'],
+        'gen': ['consts'],
+        'runs': [{'mode': 'elf', 'shards': 16}],
+        'rule': 'the same generated executables with .stack sizes 0-64 KiB, symbol tables of 1-200 symbols with ___exit at any index, argument strings over printable ASCII with arbitrary runs of blanks / tabs, 0-32 words up to 200 bytes; ER0, ER1, ER2, ER5, ER7, exit address and every non-zero DRAM block (argv table, strings) compared with Model (exact) and Spec (layout recomputed from the property statement); layoutOk (regions ordered, disjoint, inside DRAM) evaluated per case. distinct non-trivial = distinct (file, argument string) pairs.',
+        'assumptions': ['p_paddr = p_vaddr and PT_LOAD entries in ascending order (the statement\'s domain)'],
+    },
     'C14': {
         'lean': ['H8.Props.C14'],
         'gen': ['consts', 'busmap', 'dispatch', 'buscost'],
